@@ -247,3 +247,11 @@ Proof.
   intro E. f_equal. revert l2 E. induction l1 as [|a r IH]; intros [|b q] E; try discriminate; [reflexivity|].
   simpl in E. injection E as E1 E2. simpl. rewrite E1. destruct (ts_op b); [f_equal|]; apply IH; exact E2.
 Qed.
+
+(* ---- a build-time call site that passes nothing, or the default itself, consults the plain validate() *)
+Lemma validate_at_site_default {O : Type} (v : bool -> O -> bool) default arg :
+  site_agrees default arg = true -> validate_at_site v default arg = v default.
+Proof.
+  unfold site_agrees, validate_at_site. destruct arg as [b|]; [|reflexivity].
+  intro H. apply eqb_prop in H. subst b. reflexivity.
+Qed.
